@@ -18,6 +18,20 @@ PROPS = {
                      'raised failures are built by Concurrent(*children), hence exclusive specialisations'],
         partial=['except_agrees_partial (the clause "an except clause agrees" is false: except_agrees_false, finding F3)'],
     ),
+    'C19': dict(
+        gen=['SimPyRes'], props=['C19', 'C19Tie'], model=['SimPyRes', 'Lemmas/SimPyRes'], harness='c19',
+        trusted_base=KERNEL_TB + [
+            'translated from source: Container._do_put/_do_get, Store._do_put, PriorityStore._do_put',
+            'shape templates (exact AST match, else broken obligation): Store/PriorityStore/FilterStore._do_get, FilterStore._trigger_get, '
+            'BaseResource._trigger_put/_trigger_get, Resource._do_put/_do_get, PreemptiveResource._do_put, PriorityRequest.__init__, '
+            'Put/Get.__init__/cancel, Request.__exit__, SortedQueue',
+            'modelled, not verified: sortedcontainers (SortedKeyList.add = insertion after equal keys, pop(0), remove), itertools.takewhile, '
+            'the kernel running event callbacks in FIFO order within the time step (properties C01/C02)',
+        ],
+        assumptions=['amounts, priorities, times and capacities on an integer grid (or infinite capacity); items are integers',
+                     'the eager-granting theorem excludes histories whose last operation on a queue is a cancel (not listed by the statement)'],
+        partial=[],
+    ),
 }
 
 #: texts for MANIFEST.json (level, note, technique, DESIGN.md section)
@@ -34,4 +48,16 @@ MANIFEST_TEXT = {
              'issubclass-with-tuple are modelled, not verified; class creation/caching is hand-modelled and tied by correspondence only',
         technique='Lean 4 proof over translated decision logic + exhaustive differential correspondence',
         design_ref='6 (C17), 4.A, 4.B'),
+    'C19': dict(
+        level='Lean 4 theorems for every history of put/get/request/release/cancel/processed-callback operations (unbounded, any '
+              'amounts/priorities/filters/capacities) on a sequential machine per resource type: container_bounds, '
+              'container_conservation, store_fifo_once, priority_store_sorted/min_first, filter_store_first_match, '
+              'filter_store_no_head_blocking, resource_capacity, grants_are_queue_prefix + sorted priority queue, preempt_rule, '
+              'head_granted_eagerly, cancel_put_exact/release_exact. The machine\'s _do_put/_do_get/_trigger logic is proved '
+              'equal to definitions regenerated from usim/py/resources on every run (C19Tie), and the whole machine is replayed '
+              'operation by operation against the real resources driven by random SimPy processes.',
+        note='trusted: Lean kernel + standard axioms; translator/templates; sortedcontainers and takewhile by contract; integer grid for '
+             'amounts; FIFO callback order of the kernel (C01/C02) is assumed by the sequential model and checked by the correspondence',
+        technique='Lean 4 invariants over all operation histories + translated decision logic + op-by-op differential replay',
+        design_ref='6 (C19), 4.A, 4.B'),
 }
